@@ -357,3 +357,14 @@ def dispatch_cases(v, keyterm) -> dict:
     out = {k: specialise(v, k) for k in consts}
     out[None] = specialise(v, None)
     return out
+
+
+def text_of(ctx: Ctx, f: Func, args: dict | None = None) -> str | None:
+    """flat text of the string a function returns ({hole} for non-literal parts, through self._format /
+    indent / dedent wrappers), or None when it is not understood"""
+    v = value_of(ctx, f, args)
+    while v[0] == "mcall" and v[2] in ("_format", "_formatter") and len(v[3]) == 1:
+        v = v[3][0]
+    if _av.has_unk(v) or not _av._is_str(v):
+        return None
+    return _av.flatten(v).replace(_av.HO, "{").replace(_av.HC, "}")
